@@ -441,8 +441,9 @@ func c18GenPicture(r *rng) c18Pic {
 		num += p.dec + fp
 	}
 	p.minInt, p.minFrac, p.maxFrac = manInt, manFrac, manFrac+optFrac
-	pres := []string{"", "", "$", "(", "x ", "~"}
-	sufs := []string{"", "", ")", " USD", "!", "~"}
+	// the letter e (the exponent separator) is passive text in a prefix or suffix (F37)
+	pres := []string{"", "", "$", "(", "x ", "~", "fee ", "e"}
+	sufs := []string{"", "", ")", " USD", "!", "~", " eels", " each", "e"}
 	p.pre, p.suf = r.pick(pres), r.pick(sufs)
 	if p.zero == 'z' {
 		// '~' is the digit 4 of the family z { | } ~ …: not a passive character there
